@@ -148,7 +148,8 @@ def run(ctx):
                 pairs = [rng.choice(cand) for _ in range(rng.randrange(1, 8))]
                 if rng.random() < 0.3:
                     pairs.append(pairs[0])
-                if des is not None:
+                keep_undefined = des is not None and rng.random() < 0.4
+                if des is not None and not keep_undefined:
                     pairs = [p for p in pairs if des[p[0]] and des[p[1]]]
                     if not pairs:
                         ctx.count("contacts: no defined pair (skipped)")
@@ -168,8 +169,24 @@ def run(ctx):
             else:
                 multi = []
                 exp_pairs = want_pairs
-                if any(not des[p[0]] or not des[p[1]] for p in want_pairs):
+                undefined = [pi for pi, p in enumerate(want_pairs) if not des[p[0]] or not des[p[1]]]
+                if undefined and mode != "explicit":
                     ctx.count("contacts: a residue has no designated atom (undefined, skipped)")
+                    continue
+                if undefined:
+                    # a pair for which the scheme designates no atom has no contact distance: the call may refuse, or mark the entry (nothing
+                    # finite and positive); it must never hand back an ordinary-looking distance under that pair's label
+                    try:
+                        ud, up = md.compute_contacts(t, contacts, **kw)
+                    except Exception:
+                        ctx.count("contacts: a pair without designated atoms is refused loudly")
+                        continue
+                    ctx.case(None, (k, scheme, "undefined-pair", soft)); ctx.count("contacts: calls with an undefined pair that returned")
+                    vals = np.asarray(ud)[:, undefined] if np.asarray(ud).ndim == 2 and np.asarray(ud).shape[1] == len(want_pairs) else None
+                    if vals is None or np.any(np.isfinite(vals) & (vals > 0)):
+                        r0, r1 = want_pairs[undefined[0]]
+                        viol("contacts|undefined-pair-gets-a-value|" + scheme, "compute_contacts(%s%s) returns the distance %s for residues %d-%d although the scheme designates no atom in one of them (%s / %s)" % (
+                            scheme, ", soft_min" if soft else "", None if vals is None else vals[:, 0][:3], r0, r1, top.residue(r0), top.residue(r1)), rp)
                     continue
             try:
                 got_d, got_p = md.compute_contacts(t, contacts, **kw)
@@ -413,7 +430,8 @@ def run(ctx):
 
         # ---------------- J couplings
         try:
-            idxp, phi = md.compute_phi(t, periodic=False)
+            # compute_J3_* take phi from compute_phi(traj), i.e. minimum-image bond vectors whenever the trajectory has a cell
+            idxp, phi = md.compute_phi(t)
             if len(idxp):
                 for (kind, model), (A, B, C, p0) in J_TABLES.items():
                     fn = getattr(md, "compute_J3_" + kind)
